@@ -121,6 +121,9 @@ type World struct {
 	Opened     []grpctunnel.TunnelChannel
 	Closed     []grpctunnel.TunnelChannel
 
+	idleGoroutines int
+	idleMarked     bool
+
 	// Free: running outside a synctest bubble (stress engine E2).
 	Free bool
 	GRPC *grpcCarrier
@@ -331,6 +334,7 @@ func (w *World) Open(openMD metadata.MD) error {
 	default:
 		return fmt.Errorf("unknown dir %q", w.Cfg.Dir)
 	}
+	w.MarkIdle()
 	return nil
 }
 
@@ -361,6 +365,51 @@ func (w *World) startServe(rs *grpctunnel.ReverseTunnelServer, ctx context.Conte
 		w.mu.Unlock()
 	}()
 	return sr
+}
+
+// LibGoroutines counts the goroutines (other than the caller) that have a
+// grpctunnel frame on their stack.
+func LibGoroutines() (int, []string) {
+	buf := make([]byte, 4<<20)
+	n := runtime.Stack(buf, true)
+	var out []string
+	for i, b := range strings.Split(string(buf[:n]), "\n\n") {
+		if i == 0 {
+			continue
+		}
+		if strings.Contains(b, "github.com/jhump/grpctunnel.") {
+			out = append(out, b)
+		}
+	}
+	return len(out), out
+}
+
+// MarkIdle records the number of library goroutines of the idle topology (tunnels up, no RPC).
+func (w *World) MarkIdle() {
+	if w.Free {
+		return
+	}
+	w.Wait()
+	w.idleGoroutines, _ = LibGoroutines()
+	w.idleMarked = true
+}
+
+// CheckIdle: with the same tunnels up and every RPC finished, no goroutine may be retained for a finished RPC.
+func (w *World) CheckIdle(where string) {
+	if w.Free || !w.idleMarked {
+		return
+	}
+	w.Wait()
+	n, stacks := LibGoroutines()
+	w.Stat("idle_goroutine_checks", 1)
+	if n > w.idleGoroutines {
+		// name the extra ones by their innermost grpctunnel function
+		sites := map[string]int{}
+		for _, g := range stacks {
+			sites[leakSite(g)]++
+		}
+		w.Violate("C14", "goroutine-retained-for-finished-rpc", "%s: %d library goroutines with every RPC finished, %d when the tunnels were idle before; by innermost library function: %v", where, n, w.idleGoroutines, sites)
+	}
 }
 
 // ServeState returns a copy of a Serve result.
